@@ -190,7 +190,10 @@ def run_population(ck, rng, scratch, tpl, files, time_cov, probes, use_model=Tru
                         best = min(W, key=lambda g: dist(g, t))
                         what = f"find_closest({G.iso(t)}) returned {'/'.join(f.rel)} at distance {dist(f, t)}, {'/'.join(best.rel)} is at {dist(best, t)}"
                 if what:
-                    sig = "closest-shortcut-excluded" if ("excluded" in what and exact_file(tpl, files, t) is not None) else "other"
+                    ex = exact_file(tpl, files, t)
+                    hit_exact = ex is not None and got == f"ok {ex.id}" and \
+                        (G.is_excluded(ex, set(p["xnames"]), p["xtimes"]) or not G.passes_filters(ex, p["filters"]))
+                    sig = "closest-shortcut-excluded" if hit_exact else "other"
                     ck.violation(sig, what + f" on '{tpl.text()}'", case)
             kindk = f"{tag}/{p['kind']}/{'onres' if p['onres'] else 'offres'}/{p['via']}/" + \
                     ("err-" + got[4:] if got.startswith("err") else ("none" if got == "none" else
